@@ -29,7 +29,7 @@ def errText (e : JV JNum) : Option String :=
 def modelRun (prog input : String) : Option (Nat × String × Option String) :=
   match C23.preludeJ, parseProgram prog, (readJson input : Option (JV JNum)) with
   | some env, some e, some v =>
-    (match eval jqDialect C23.fuelDefault e env v .off with
+    (match eval jqDialect 2000 e env v .off with
      | none => none
      | some outs =>
        let vals := outs.filterMap fun | .val x _ => some (render x) | _ => none
@@ -67,7 +67,9 @@ def oracleRun (prog input : String) : Option (List String × Option String) :=
 
 def containsSub (s sub : String) : Bool := (s.splitOn sub).length > 1
 
-def exec (a : List String) : String :=
+def exec (a0 : List String) : String :=
+  -- `mcase` = `case` answered by the oracle only
+  let a := match a0 with | "mcase" :: rest => "case" :: rest | a => a
   match a with
   | ["case", _, p, i, x] =>
     (match C23.hexToString p, C23.hexToString i, C23.hexToString x with
